@@ -13,6 +13,12 @@ RULE = (
     "resolvable or not; DO NOTHING / DO UPDATE with 1..3 SET items keyed by column key, column name or Column object, "
     "values using excluded.*, table columns, literals, NULL and per-row bindparam(); optional WHERE) x "
     "{no RETURNING, RETURNING, RETURNING sort_by_parameter_order} x insertmanyvalues page size {1,2,3,1000}; "
+    "family sequence: 2-4 upserts on ONE fresh engine (compiled cache on) differing in exactly one clause component "
+    "(where / SET value / SET key / index_elements / index_where / action), each compared with the cache-free model; "
+    "family typed: SET on a column with a bind-processing datatype, keyed by string or Column object, value a Python "
+    "literal / bindparam / excluded / NULL, on conflicting rows; family bindparam-flavour: bindparam(name) and "
+    "bindparam(name, None) in SET values under executemany + RETURNING (bindparam with a default value: oracle only, "
+    "known finding); "
     "family render-sqlite / render-pg (ON CONSTRAINT included) and render-mysql (dict and ordered-list arguments, "
     "VALUES() and row-alias forms): the clause text tokenised and compared with the model's rendering; family "
     "batch-decision: all 64 flag combinations driven through the real _deliver_insertmanyvalues_batches; family plan-pg: "
@@ -55,7 +61,7 @@ ANCHORS = [
 ]
 
 # ------------------------------------------------------------------ identifiers
-NAMES = ["id", "k", "v", "w", "vk", "zz", "uq_k", "ix_vw", "pk_t", "kk"]
+NAMES = ["id", "k", "v", "w", "vk", "zz", "uq_k", "ix_vw", "pk_t", "kk", "p"]
 SPECIAL = {"t": -1, "excluded": -2, "new": -3}
 KW = ["ON", "CONFLICT", "DO", "NOTHING", "UPDATE", "SET", "WHERE", "NULL", "CONSTRAINT", "DUPLICATE", "KEY", "VALUES", "AS"]
 
@@ -77,6 +83,11 @@ SCHEMAS = [
     ),
     (
         [[0, 0], [9, 1], [2, 2], [3, 3]],  # id, k (key "kk"), v, w
+        [[8, [0], []], [6, [1], []]],
+    ),
+    (
+        # id, k, v, w, p  - p has a datatype with bind/result processing (TypeDecorator storing value + 100)
+        [[0, 0], [1, 1], [2, 2], [3, 3], [10, 10]],
         [[8, [0], []], [6, [1], []]],
     ),
 ]
@@ -115,6 +126,30 @@ def translate(repo, outdir):
     )
     if want_vb not in vb:
         raise fingerprint.TranslateError("visit_bindparam: upsert SET bound-parameter detection differs from the model")
+    # every attribute the ON CONFLICT clause constructors assign must take part in traversal / cache key
+    for rel in ("lib/sqlalchemy/dialects/sqlite/dml.py", "lib/sqlalchemy/dialects/postgresql/dml.py"):
+        mod = ast.parse(open(os.path.join(repo, rel)).read())
+        consts = {}
+        for cname in ("OnConflictClause", "OnConflictDoUpdate"):
+            cls = fingerprint.find_node(mod, cname)
+            assigned = set()
+            init = fingerprint.find_node(cls, "__init__")
+            for n in ast.walk(init):
+                if isinstance(n, (ast.Assign, ast.AnnAssign)):
+                    tgts = n.targets if isinstance(n, ast.Assign) else [n.target]
+                    for tg in tgts:
+                        for x in ast.walk(tg):
+                            if isinstance(x, ast.Attribute) and isinstance(x.value, ast.Name) and x.value.id == "self":
+                                assigned.add(x.attr)
+            ti = fingerprint.find_node(cls, "_traverse_internals")
+            names = {x.value for x in ast.walk(ti) if isinstance(x, ast.Constant) and isinstance(x.value, str)}
+            consts[cname] = names
+            listed = set(names) | (consts.get("OnConflictClause", set()) if cname == "OnConflictDoUpdate" else set())
+            missing = sorted(assigned - listed)
+            if missing:
+                raise fingerprint.TranslateError(
+                    "%s: %s.__init__ assigns %s but _traverse_internals does not list it (not in the cache key)" % (rel, cname, missing)
+                )
     cr = open(os.path.join(repo, "lib/sqlalchemy/sql/crud.py")).read()
     if "dialect.use_insertmanyvalues_wo_returning\n" not in cr or "and stmt._post_values_clause is None" not in cr:
         raise fingerprint.TranslateError("crud.py: insertmanyvalues without RETURNING is no longer disabled for upserts")
@@ -132,7 +167,7 @@ def _atom(rng, par, nul=False, ncol=4):
         return [2, rng.randrange(ncol)]
     if k == "exc":
         return [3, rng.randrange(ncol)]
-    return [4, rng.randrange(2)]
+    return [rng.choice([4, 4, 5]), rng.randrange(2)]
 
 
 def _expr(rng, par, nul=False):
@@ -271,9 +306,106 @@ def _plan_case(rng):
     return {"in": [5, embed, [cl], ret, srt, rng.choice([1, 2, 3, 1000]), ps], "kind": "plan-pg"}
 
 
+def _conflict_data(rng, ncol, ixs=()):
+    """existing rows with ids 1..3 and parameter sets that mostly hit them, with differing bindparam values"""
+    existing = []
+    for i in (1, 2, 3):
+        r = [i, 10 + i, rng.randint(0, 3), rng.randint(0, 3)] + ([rng.randint(0, 9)] if ncol == 5 else [])
+        if _first_clash(ixs, r, existing) is None:
+            existing.append(r)
+    ps = []
+    ids = rng.sample([1, 2, 3, 4, 5], rng.randint(2, 4))
+    for j, i in enumerate(ids):
+        ps.append([[i, 20 + i + j, rng.randint(0, 3), rng.randint(0, 3)] + ([rng.randint(10, 19)] if ncol == 5 else []), [30 + j, 40 + j]])
+    return existing, ps
+
+
+def _seq_case(rng):
+    """statements on ONE engine that differ in exactly one component of the conflict clause"""
+    sch = SCHEMAS[rng.choice([0, 1])]
+    cols = sch[0]
+    tg_id = [1, [[1, 0]], []]
+    tg_k = [1, [[1, 1]], []]
+    wheres = [
+        [],
+        [[0, [0, [2, 2]], [0, [3, 2]]]],  # t.v < excluded.v
+        [[2, [0, [2, 2]], [0, [3, 2]]]],  # t.v > excluded.v
+        [[0, [0, [2, 2]], [0, [0, 0, 2]]]],  # t.v < 2
+        [[0, [0, [2, 2]], [0, [0, 0, 0]]]],  # t.v < 0
+        [[0, [0, [2, 3]], [0, [0, 0, 2]]]],  # t.w < 2
+        [[1, [0, [2, 2]], [0, [0, 0, 1]]]],  # t.v = 1
+    ]
+    setvals = [[0, [3, 3]], [0, [0, 0, 7]], [0, [0, 0, 8]], [1, [2, 3], [0, 0, 1]], [0, [3, 2]], [0, [1]]]
+    what = rng.choice(["where", "where", "where", "setval", "setkey", "target", "iwhere", "action"])
+    base_w = rng.choice(wheres)
+    base_v = rng.choice(setvals)
+    n = rng.randint(2, 4)
+    seq = []
+    for i in range(n):
+        w, v, tg, key = base_w, base_v, tg_id, [0, cols[3][0]]
+        if what == "where":
+            w = wheres[(wheres.index(base_w) + i) % len(wheres)] if i else base_w
+        elif what == "setval":
+            v = setvals[(setvals.index(base_v) + i) % len(setvals)]
+        elif what == "setkey":
+            key = [[0, cols[3][0]], [0, cols[2][0]], [1, 3], [1, 2]][i % 4]
+        elif what == "target":
+            tg = [tg_id, tg_k][i % 2]
+        elif what == "iwhere":
+            tg = [1, [[1, 0]], [] if i % 2 else [GT_W0]]
+        if what == "action" and i % 2:
+            seq.append([[0, tg]])
+        else:
+            seq.append([[1, tg, [[key, v]], w]])
+    existing, ps = _conflict_data(rng, 4, sch[1])
+    ret = int(rng.random() < 0.6)
+    return {"in": [6, 1, cols, sch[1], seq, ret, int(ret and rng.random() < 0.5), 1000, existing, ps], "kind": "sequence"}
+
+
+def _typed_case(rng):
+    """SET on a column whose datatype processes bound values, keyed by string / Column object, value a Python
+    literal, a bindparam(), excluded.p or NULL; conflicting rows"""
+    sch = SCHEMAS[2]
+    cols = sch[0]
+    key = rng.choice([[0, 10], [1, 4]])
+    val = rng.choice([[0, [0, 0, rng.randint(0, 9)]], [0, [4, 0]], [0, [5, 0]], [0, [4, 0]], [0, [3, 4]], [0, [1]]])
+    sets = [[key, val]]
+    if rng.random() < 0.4:
+        sets.insert(rng.randrange(2), [[0, 3], [0, [3, 3]]])
+    w = [[rng.randrange(3), [0, [2, 2]], [0, [3, 2]]]] if rng.random() < 0.3 else []
+    existing, ps = _conflict_data(rng, 5)
+    ret = int(rng.random() < 0.5)
+    return {"in": [0, 1, cols, sch[1], [[1, [1, [[1, 0]], []], sets, w]], ret, int(ret and rng.random() < 0.5), rng.choice([1, 2, 1000]), existing, ps], "kind": "typed"}
+
+
+def _bp_case(rng, flavour):
+    """executemany + RETURNING, bindparam() of the given flavour in a SET value, conflicting rows with differing values"""
+    sch = SCHEMAS[1]
+    cols = sch[0]
+    sets = [[rng.choice([[0, 3], [1, 3]]), rng.choice([[0, [flavour, 0]], [1, [flavour, 0], [2, 3]], [1, [0, 0, 1], [flavour, 1]]])]]
+    if rng.random() < 0.3:
+        sets.append([[0, 2], [0, [3, 2]]])
+    existing, ps = _conflict_data(rng, 4)
+    srt = int(rng.random() < 0.3)
+    c = {"in": [0, 1, cols, sch[1], [[1, [1, [[1, 0]], []], sets, []]], 1, srt, rng.choice([2, 3, 1000]), existing, ps], "kind": "bindparam-flavour"}
+    if flavour == 6:
+        c["model"] = False  # known defect C56-set-bindparam-default-batched: oracle only
+        c["kind"] = "bindparam-default"
+    return c
+
+
 def gen_cases(rng, tier):
     cases = []
     big = tier == "thorough"
+    for _ in range(2000 if big else 150):
+        cases.append(_seq_case(rng))
+    for _ in range(2000 if big else 120):
+        cases.append(_typed_case(rng))
+    for _ in range(1000 if big else 40):
+        cases.append(_bp_case(rng, 4))
+        cases.append(_bp_case(rng, 5))
+    for _ in range(200 if big else 12):
+        cases.append(_bp_case(rng, 6))
     for _ in range(3000 if big else 200):
         cases.append(_plan_case(rng))
     for _ in range(30000 if big else 1000):
@@ -290,6 +422,8 @@ def gen_cases(rng, tier):
 
 def nontrivial(c):
     t = c["in"]
+    if t[0] == 6:
+        return len(t[4]) >= 2
     if t[0] == 0:
         ixs, existing, ps = t[3], t[8], t[9]
         tab = [list(r) for r in existing]
@@ -321,7 +455,7 @@ def _ev_atom(a, old, exc, bp):
         return _n(old[a[1]])
     if a[0] == 3:
         return _n(exc[a[1]])
-    return _n(bp[a[1]])
+    return _n(bp[a[1]])  # 4, 5, 6: every flavour of bindparam() is filled from the parameter set
 
 
 def _ev(e, old, exc, bp):
@@ -459,7 +593,7 @@ def _expected(t):
 
 def _uses_par(clauses, k):
     def hp(e):
-        return any(a == [4, k] for a in e[1:])
+        return any(a[0] in (4, 5, 6) and a[1] == k for a in e[1:])
 
     for cl in clauses:
         if cl[0] == 1:
@@ -470,7 +604,7 @@ def _uses_par(clauses, k):
 
 def _has_where_par(t):
     def hp(e):
-        return any(a[0] == 4 for a in e[1:])
+        return any(a[0] in (4, 5, 6) for a in e[1:])
 
     return any(cl[0] == 1 and cl[3] and (hp(cl[3][0][1]) or hp(cl[3][0][2])) for cl in t[4])
 
@@ -484,6 +618,12 @@ def _has_bound_index_where(t):
 
 def oracle(c, obs):
     t = c["in"]
+    if t[0] == 6:
+        for i, (clauses, o) in enumerate(zip(t[4], obs)):
+            w = oracle({"in": [0] + t[1:4] + [clauses] + t[5:]}, o)
+            if w:
+                return "statement %d of a sequence on one engine (compiled cache on): %s" % (i, w)
+        return None
     if t[0] == 0:
         exp = _expected(t)
         ret, srt = t[5], t[6]
@@ -622,13 +762,16 @@ def match_finding(c, what):
     t = c["in"]
     if t[0] == 5 and "instead of its own value" in what:
         def wp(k):
-            return any(cl[0] == 1 and cl[3] and any(a == [4, k] for e in cl[3][0][1:] for a in e[1:]) for cl in t[2])
+            return any(cl[0] == 1 and cl[3] and any(a[0] in (4, 5, 6) and a[1] == k for e in cl[3][0][1:] for a in e[1:]) for cl in t[2])
         def sp(k):
-            return any(cl[0] == 1 and any(a == [4, k] for _, e in cl[2] for a in e[1:]) for cl in t[2])
+            return any(cl[0] == 1 and any(a[0] in (4, 5, 6) and a[1] == k for _, e in cl[2] for a in e[1:]) for cl in t[2])
         if t[1] == 1 and t[3] and (sp(0) or sp(1)):
             return "C56-pg-embedded-counter-set-bindparam"
         if t[3] and (wp(0) or wp(1)) and not (sp(0) or sp(1)) and (t[1] == 1 or not t[4]):
             return "C56-where-bindparam-batched"
+    if t[0] == 0 and t[5] and not t[6] and len(t[9]) > 1 and t[7] > 1:
+        if any(cl[0] == 1 and any(a[0] == 6 for _, e in cl[2] for a in e[1:]) for cl in t[4]):
+            return "C56-set-bindparam-default-batched"
     if t[0] == 0:
         n = len(t[9])
         if n > 1 and _has_bound_index_where(t) and "error class 3" in what:
@@ -642,16 +785,29 @@ def match_finding(c, what):
 _cache = {}
 
 
-def _schema(cols, ixs):
+def _schema(cols, ixs, fresh=False):
     key = repr((cols, ixs))
-    if key in _cache:
+    if key in _cache and not fresh:
         return _cache[key]
     import sqlalchemy as sa
 
     md = sa.MetaData()
     cobjs = []
+
+    class ShiftInt(sa.TypeDecorator):
+        """integer stored as value + 100: bind and result processing are visible in the stored data"""
+
+        impl = sa.Integer
+        cache_ok = True
+
+        def process_bind_param(self, value, dialect):
+            return None if value is None else value + 100
+
+        def process_result_value(self, value, dialect):
+            return None if value is None else value - 100
+
     for i, (k, n) in enumerate(cols):
-        cobjs.append(sa.Column(nm(n), sa.Integer, primary_key=(i == 0), key=nm(k)))
+        cobjs.append(sa.Column(nm(n), ShiftInt() if nm(n) == "p" else sa.Integer, primary_key=(i == 0), key=nm(k)))
     t = sa.Table("t", md, *cobjs)
     for name, cs, w in ixs[1:]:
         if w:
@@ -660,7 +816,8 @@ def _schema(cols, ixs):
             t.append_constraint(sa.UniqueConstraint(*[t.c[nm(cols[c][0])] for c in cs], name=nm(name)))
     eng = sa.create_engine("sqlite://", connect_args={"autocommit": False})
     md.create_all(eng)
-    _cache[key] = (t, eng)
+    if not fresh:
+        _cache[key] = (t, eng)
     return t, eng
 
 
@@ -675,6 +832,10 @@ def _sa_atom(a, t, exc, cols):
         return t.c[nm(cols[a[1]][0])]
     if a[0] == 3:
         return exc[nm(cols[a[1]][0])]
+    if a[0] == 5:
+        return sa.bindparam("b%d" % a[1], None)  # explicit None default: still filled from the parameter sets
+    if a[0] == 6:
+        return sa.bindparam("b%d" % a[1], 77)  # a default value, overridden by every parameter set
     return sa.bindparam("b%d" % a[1])
 
 
@@ -706,7 +867,12 @@ def _build(ins, t, cols, clauses, pg=False):
         else:
             set_ = {}
             for key, e in cl[2]:
-                set_[nm(key[1]) if key[0] == 0 else t.c[nm(cols[key[1]][0])]] = _sa_expr(e, t, exc, cols)
+                ci = _key_col(cols, key)
+                if ci is not None and nm(cols[ci][1]) == "p" and e[0] == 0 and e[1][0] == 0:
+                    val = e[1][2]  # a plain Python value: typed from the column it is assigned to
+                else:
+                    val = _sa_expr(e, t, exc, cols)
+                set_[nm(key[1]) if key[0] == 0 else t.c[nm(cols[key[1]][0])]] = val
             st = st.on_conflict_do_update(set_=set_, where=(_sa_pred(cl[3][0], t, exc, cols) if cl[3] else None), **kw)
     return st
 
@@ -769,6 +935,48 @@ def _tokens(compiled, start_marker):
     return out
 
 
+def _exec_once(t, eng, cols, clauses, ret, srt, page, existing, ps):
+    import sqlalchemy as sa
+    from sqlalchemy import exc as saexc
+    from sqlalchemy.dialects.sqlite import insert as sinsert
+
+    keys = [nm(k) for k, _ in cols]
+    try:
+        st = _build(sinsert, t, cols, clauses)
+    except saexc.InvalidRequestError:
+        return [1, 3]
+    if ret:
+        st = st.returning(*t.c, sort_by_parameter_order=bool(srt))
+    with eng.connect() as conn:
+        conn.execute(t.delete())
+        if existing:
+            conn.execute(t.insert(), [dict(zip(keys, [_n(x) for x in r])) for r in existing])
+        conn.commit()
+        params = []
+        for r, bp in ps:
+            d = dict(zip(keys, [_n(x) for x in r]))
+            d.update({"b%d" % i: _n(v) for i, v in enumerate(bp)})
+            params.append(d)
+        try:
+            res = conn.execution_options(insertmanyvalues_page_size=page).execute(st, params)
+            rr = [[[] if x is None else x for x in row] for row in res] if ret else []
+            tab = [[[] if x is None else x for x in row] for row in conn.execute(sa.select(t))]
+        except saexc.IntegrityError:
+            return [1, 1]
+        except saexc.OperationalError:
+            return [1, 2]
+        except saexc.StatementError as e:
+            if isinstance(e.orig, saexc.InvalidRequestError):
+                return [1, 3]
+            return [1, 9]  # e.g. the DBAPI cannot bind an unprocessed value
+        finally:
+            conn.rollback()
+    tab.sort(key=_rowkey)
+    if ret and not srt:
+        rr.sort(key=_rowkey)
+    return [0, tab, rr]
+
+
 def impl(c):
     import warnings
 
@@ -780,45 +988,16 @@ def impl(c):
     with warnings.catch_warnings():
         warnings.simplefilter("ignore")
         if fam == 0:
-            from sqlalchemy.dialects.sqlite import insert as sinsert
-
             _, _, cols, ixs, clauses, ret, srt, page, existing, ps = t_in
             t, eng = _schema(cols, ixs)
-            keys = [nm(k) for k, _ in cols]
+            return _exec_once(t, eng, cols, clauses, ret, srt, page, existing, ps)
+        if fam == 6:
+            _, _, cols, ixs, seq, ret, srt, page, existing, ps = t_in
+            t, eng = _schema(cols, ixs, fresh=True)  # its own engine: an empty compiled cache, filled by the sequence
             try:
-                st = _build(sinsert, t, cols, clauses)
-            except saexc.InvalidRequestError:
-                return [1, 3]
-            if ret:
-                st = st.returning(*t.c, sort_by_parameter_order=bool(srt))
-            with eng.connect() as conn:
-                conn.execute(t.delete())
-                if existing:
-                    conn.execute(t.insert(), [dict(zip(keys, [_n(x) for x in r])) for r in existing])
-                conn.commit()
-                params = []
-                for r, bp in ps:
-                    d = dict(zip(keys, [_n(x) for x in r]))
-                    d.update({"b%d" % i: _n(v) for i, v in enumerate(bp)})
-                    params.append(d)
-                try:
-                    res = conn.execution_options(insertmanyvalues_page_size=page).execute(st, params)
-                    rr = [[[] if x is None else x for x in row] for row in res] if ret else []
-                    tab = [[[] if x is None else x for x in row] for row in conn.execute(sa.select(t))]
-                except saexc.IntegrityError:
-                    return [1, 1]
-                except saexc.OperationalError:
-                    return [1, 2]
-                except saexc.StatementError as e:
-                    if isinstance(e.orig, saexc.InvalidRequestError):
-                        return [1, 3]
-                    raise
-                finally:
-                    conn.rollback()
-            tab.sort(key=_rowkey)
-            if ret and not srt:
-                rr.sort(key=_rowkey)
-            return [0, tab, rr]
+                return [_exec_once(t, eng, cols, clauses, ret, srt, page, existing, ps) for clauses in seq]
+            finally:
+                eng.dispose()
         if fam == 1:
             _, d, cols, clauses = t_in
             t, _ = _schema(cols, SCHEMAS[0][1] if cols == SCHEMAS[0][0] else SCHEMAS[1][1])
